@@ -6,7 +6,7 @@ import re
 
 from .cfg import CFG
 from .expr import (E, UNKNOWN, DEFAULT, mk_phi, simplify, subst, callee_key, walk, find,
-                   IDENT_ARG, IDENT_TRAIT_METHODS, ARITH_TRAITS, ASSIGN_TRAITS, CMP_METHODS)
+                   IDENT_ARG, IDENT_TRAIT_METHODS, ARITH_TRAITS, ASSIGN_TRAITS, CMP_METHODS, CHECKED_ARITH)
 from .ir import strip_generics
 
 OPAQUE_MUT_TYPES = ("cosmwasm_std::DepsMut", "dyn [", "cosmwasm_std::QuerierWrapper", "std::fmt::Formatter",
@@ -625,6 +625,9 @@ class World:
                 return self.ident(e.args[IDENT_ARG[k]], depth + 1, expand_ws)
             if k == "vec!":
                 return e
+            if isinstance(k, str) and k.rsplit("::", 1)[-1] in CHECKED_ARITH and len(e.args) == 2 and self.callee_body(e) is None:
+                # library checked_add/sub/mul(a, b): canonical operator form (Ok payload; Err aborts like the operator's panic)
+                return E("bin", e.args, CHECKED_ARITH[k.rsplit("::", 1)[-1]], e.site)
             if k in ("std::option::Option::unwrap_or_default", "std::result::Result::unwrap_or_default") and e.args:
                 which = "some" if "Option" in k else "ok"
                 return self.ident(mk_phi([simplify(E("proj", (e.args[0],), which)), DEFAULT]), depth + 1, expand_ws)
